@@ -303,8 +303,12 @@ impl Tablet {
     fn update_stale_nodes(&mut self, recreated_nodes: &HashMap<Uuid, Arc<Node>>) {
         let mut any_updated = false;
         for (node, _) in self.replicas.all.iter_mut() {
-            if let Some(new_node) = recreated_nodes.get(&node.host_id) {
-                assert!(!Arc::ptr_eq(new_node, node));
+            // The tablet may already hold the new `Node` object: replicas that were unknown
+            // when the tablet was learnt are (re-)resolved against the current nodes earlier
+            // in the same maintenance pass. Only genuinely stale objects are replaced.
+            if let Some(new_node) = recreated_nodes.get(&node.host_id)
+                && !Arc::ptr_eq(new_node, node)
+            {
                 any_updated = true;
                 *node = Arc::clone(new_node);
             }
